@@ -64,6 +64,8 @@ func run(raw json.RawMessage) (c lib.Case) {
 		return runEntry(in)
 	case "config":
 		return runConfig(in)
+	case "localflood":
+		return runLocalFlood(in)
 	case "cluster":
 		return runClusterParent(in, raw)
 	}
